@@ -2,6 +2,7 @@ mod ast;
 mod batch;
 mod c01;
 mod c08;
+mod c10;
 mod cssgen;
 mod cssmodel;
 mod common;
@@ -24,6 +25,7 @@ fn main() {
         "c01" => c01::explore(thorough, &out),
         "c08" => c08::explore(c08::Prop::C08, thorough, &out),
         "c09" => c08::explore(c08::Prop::C09, thorough, &out),
+        "c10" => c10::explore(thorough, &out),
         "replay" => {
             let engine = args.get(2).expect("engine");
             let file = args.get(3).expect("file");
@@ -32,6 +34,7 @@ fn main() {
                 "c01" => c01::replay(&v),
                 "c08" => c08::replay(c08::Prop::C08, &v),
                 "c09" => c08::replay(c08::Prop::C09, &v),
+                "c10" => c10::replay(&v),
                 _ => panic!("unknown engine"),
             };
             println!("{}", r);
